@@ -242,6 +242,9 @@ package cert
 //@   given EXTOIDS
 //@   ensures @C06 res.Critical == critical && oidv(res.Id) == specExtOid(4)
 //@   ensures @C07 bytes(res.Value) == bcDer(isCa, pathLen)
+// the statement of C07: a configured path length, zero included, is encoded (a CA certificate with pathLen 0 may issue
+// end-entity certificates only)
+//@   ensures @C07 isCa ==> bytes(res.Value) == bcSpec(true, true, pathLen)
 
 //@ func NewCertificatePolicies returns (res, err)
 //@   props C06 C07
